@@ -116,6 +116,7 @@ VecOK(r) == \/ r = Absent
 
 TypeOK == /\ \A v \in Vecs : VecOK(vec[v])
           /\ \A x \in Elems : el[x] = Absent \/ (el[x].st \in {"live", "moved"})
+          /\ \A x \in Elems : el[x].st = "live" => Len(el[x].e.f) = NP
 
 (* the container-level invariants the properties imply *)
 WithinCapacity == \A v \in Vecs : vec[v].st = "live" => Len(vec[v].elems) <= vec[v].cap
@@ -213,12 +214,79 @@ EffSwap(S0, v, w) ==
                       !.vec[w] = IF POCS THEN a ELSE [a EXCEPT !.al = b.al]]
 
 (***************************************************************************)
+(* Stand-alone elements (cntgs::BasicContiguousElement, the vector's       *)
+(* value_type).  An element record: [st, e (element contents), al].  For   *)
+(* element operations the operand `v` of the action is the element id x.   *)
+(* Value-category rule of the library (element.hpp): constructing or       *)
+(* assigning from an RVALUE MUTABLE reference (e.g. the prvalue `vec[i]`)  *)
+(* moves the values out of the vector; from a const reference it copies.   *)
+(***************************************************************************)
+SetEl(S0, x, r) == [S0 EXCEPT !.el[x] = r]
+ELive(S0, x)    == S0.el[x].st = "live"
+EPresent(S0, x) == S0.el[x].st \in {"live", "moved"}
+InRange(S0, v, i) == Live(S0, v) /\ 0 <= i /\ i < Size(S0, v)
+MovedEl(al) == [st |-> "moved", al |-> al]
+
+PreElemFromRef(S0, x, v, i, al) == S0.el[x] = Absent /\ InRange(S0, v, i)
+EffElemFromRef(S0, x, v, i, al) == SetEl(S0, x, [st |-> "live", e |-> S0.vec[v].elems[i + 1], al |-> al])
+EffElemFromRvRef(S0, x, v, i, al) ==
+  [S0 EXCEPT !.el[x] = [st |-> "live", e |-> S0.vec[v].elems[i + 1], al |-> al],
+             !.vec[v].elems[i + 1] = MovedFromElem(@)]
+
+PreElemCopy(S0, x, y) == x # y /\ S0.el[x] = Absent /\ ELive(S0, y)
+EffElemCopy(S0, x, y) == SetEl(S0, x, [S0.el[y] EXCEPT !.al = Soccc(@)])
+EffElemMove(S0, x, y) == [S0 EXCEPT !.el[x] = S0.el[y], !.el[y] = MovedEl(S0.el[y].al)]
+EffElemCopyAlloc(S0, x, y, al) == SetEl(S0, x, [S0.el[y] EXCEPT !.al = al])
+\* allocator-extended move: steals when the allocators are equal, otherwise moves the values
+\* one by one and leaves the source alive with moved-from values
+EffElemMoveAlloc(S0, x, y, al) ==
+  IF EqAlloc(al, S0.el[y].al)
+  THEN [S0 EXCEPT !.el[x] = [S0.el[y] EXCEPT !.al = al], !.el[y] = MovedEl(S0.el[y].al)]
+  ELSE [S0 EXCEPT !.el[x] = [S0.el[y] EXCEPT !.al = al], !.el[y].e = MovedFromElem(@)]
+
+PreElemAssign(S0, x, y) == EPresent(S0, x) /\ ELive(S0, y)
+EffElemCopyAssign(S0, x, y) ==
+  IF x = y THEN S0
+  ELSE SetEl(S0, x, [st |-> "live", e |-> S0.el[y].e, al |-> IF POCCA THEN S0.el[y].al ELSE S0.el[x].al])
+EffElemMoveAssign(S0, x, y) ==
+  IF x = y THEN S0
+  ELSE IF POCMA \/ EqAlloc(S0.el[x].al, S0.el[y].al)
+       THEN [S0 EXCEPT !.el[x] = [st |-> "live", e |-> S0.el[y].e,
+                                  al |-> IF POCMA THEN S0.el[y].al ELSE S0.el[x].al],
+                       !.el[y] = MovedEl(S0.el[y].al)]
+       ELSE [S0 EXCEPT !.el[x] = [st |-> "live", e |-> S0.el[y].e, al |-> S0.el[x].al],
+                       !.el[y].e = MovedFromElem(@)]
+
+PreElemSwap(S0, x, y) == EPresent(S0, x) /\ EPresent(S0, y) /\ (POCS \/ EqAlloc(S0.el[x].al, S0.el[y].al))
+EffElemSwap(S0, x, y) ==
+  IF x = y THEN S0
+  ELSE LET a == S0.el[x]  b == S0.el[y]
+       IN  [S0 EXCEPT !.el[x] = IF POCS THEN b ELSE [b EXCEPT !.al = a.al],
+                      !.el[y] = IF POCS THEN a ELSE [a EXCEPT !.al = b.al]]
+
+\* assignment between an element and a reference into a vector: contents only, equal field sizes required
+PreElemAssignFromRef(S0, x, v, i) == ELive(S0, x) /\ InRange(S0, v, i) /\ SameShape(S0.el[x].e, S0.vec[v].elems[i + 1])
+EffElemAssignFromRef(S0, x, v, i) == [S0 EXCEPT !.el[x].e = S0.vec[v].elems[i + 1]]
+EffElemAssignFromRvRef(S0, x, v, i) ==
+  [S0 EXCEPT !.el[x].e = S0.vec[v].elems[i + 1], !.vec[v].elems[i + 1] = MovedFromElem(@)]
+PreRefAssignFromElem(S0, v, i, x) == PreElemAssignFromRef(S0, x, v, i)
+EffRefAssignFromElem(S0, v, i, x) == [S0 EXCEPT !.vec[v].elems[i + 1] = S0.el[x].e]
+EffRefAssignFromRvElem(S0, v, i, x) ==
+  [S0 EXCEPT !.vec[v].elems[i + 1] = S0.el[x].e, !.el[x].e = MovedFromElem(@)]
+
+PreElemDestroy(S0, x) == EPresent(S0, x)
+EffElemDestroy(S0, x) == SetEl(S0, x, Absent)
+
+(***************************************************************************)
 (* Dispatch on the operation name - used by the generator actions below    *)
 (* and by Trace.tla.                                                       *)
 (***************************************************************************)
 VecOps1 == {"Construct", "DefaultConstruct", "Destroy", "Emplace", "PopBack", "Erase", "EraseRange",
             "Clear", "Reserve"}
 VecOps2 == {"CopyConstruct", "CopyAssign", "MoveConstruct", "MoveAssign", "Swap"}
+ElemOps == {"ElemFromRef", "ElemFromRvRef", "ElemCopy", "ElemMove", "ElemCopyAlloc", "ElemMoveAlloc",
+            "ElemCopyAssign", "ElemMoveAssign", "ElemSwap", "ElemAssignFromRef", "ElemAssignFromRvRef", "ElemDestroy"}
+ElemOps2 == {"ElemCopy", "ElemMove", "ElemCopyAlloc", "ElemMoveAlloc", "ElemCopyAssign", "ElemMoveAssign", "ElemSwap"}
 
 PreOf(S0, n, v, a) ==
   CASE n = "Construct"        -> PreConstruct(S0, v, a[1], a[2], a[3])
@@ -235,6 +303,13 @@ PreOf(S0, n, v, a) ==
     [] n = "MoveConstruct"    -> PreMoveConstruct(S0, v, a[1])
     [] n = "MoveAssign"       -> PreMoveAssign(S0, v, a[1])
     [] n = "Swap"             -> PreSwap(S0, v, a[1])
+    [] n \in {"ElemFromRef", "ElemFromRvRef"}     -> PreElemFromRef(S0, v, a[1], a[2], a[3])
+    [] n \in {"ElemCopy", "ElemMove", "ElemCopyAlloc", "ElemMoveAlloc"} -> PreElemCopy(S0, v, a[1])
+    [] n \in {"ElemCopyAssign", "ElemMoveAssign"} -> PreElemAssign(S0, v, a[1])
+    [] n = "ElemSwap"         -> PreElemSwap(S0, v, a[1])
+    [] n \in {"ElemAssignFromRef", "ElemAssignFromRvRef"}  -> PreElemAssignFromRef(S0, v, a[1], a[2])
+    [] n \in {"RefAssignFromElem", "RefAssignFromRvElem"}  -> PreRefAssignFromElem(S0, v, a[1], a[2])
+    [] n = "ElemDestroy"      -> PreElemDestroy(S0, v)
     [] OTHER                  -> FALSE
 
 EffOf(S0, n, v, a, par) ==
@@ -252,6 +327,20 @@ EffOf(S0, n, v, a, par) ==
     [] n = "MoveConstruct"    -> EffMoveConstruct(S0, v, a[1])
     [] n = "MoveAssign"       -> EffMoveAssign(S0, v, a[1], par)
     [] n = "Swap"             -> EffSwap(S0, v, a[1])
+    [] n = "ElemFromRef"      -> EffElemFromRef(S0, v, a[1], a[2], a[3])
+    [] n = "ElemFromRvRef"    -> EffElemFromRvRef(S0, v, a[1], a[2], a[3])
+    [] n = "ElemCopy"         -> EffElemCopy(S0, v, a[1])
+    [] n = "ElemMove"         -> EffElemMove(S0, v, a[1])
+    [] n = "ElemCopyAlloc"    -> EffElemCopyAlloc(S0, v, a[1], a[2])
+    [] n = "ElemMoveAlloc"    -> EffElemMoveAlloc(S0, v, a[1], a[2])
+    [] n = "ElemCopyAssign"   -> EffElemCopyAssign(S0, v, a[1])
+    [] n = "ElemMoveAssign"   -> EffElemMoveAssign(S0, v, a[1])
+    [] n = "ElemSwap"         -> EffElemSwap(S0, v, a[1])
+    [] n = "ElemAssignFromRef"   -> EffElemAssignFromRef(S0, v, a[1], a[2])
+    [] n = "ElemAssignFromRvRef" -> EffElemAssignFromRvRef(S0, v, a[1], a[2])
+    [] n = "RefAssignFromElem"   -> EffRefAssignFromElem(S0, v, a[1], a[2])
+    [] n = "RefAssignFromRvElem" -> EffRefAssignFromRvElem(S0, v, a[1], a[2])
+    [] n = "ElemDestroy"      -> EffElemDestroy(S0, v)
 
 (* constraint on logged parameters: what the properties do fix *)
 ParOK(S0, n, v, a, par) ==
@@ -295,12 +384,26 @@ MoveConstruct    == \E v \in Vecs, w \in Vecs : Do("MoveConstruct", v, <<w>>)
 MoveAssign       == \E v \in Vecs, w \in Vecs : Do("MoveAssign", v, <<w>>)
 Swap             == \E v \in Vecs, w \in Vecs : Do("Swap", v, <<w>>)
 
+IdxSpace == 0..(MaxReserve - 1)
+ElemFromRef      == \E x \in Elems, v \in Vecs, i \in IdxSpace, al \in Allocs :
+                       \/ Do("ElemFromRef", x, <<v, i, al>>) \/ Do("ElemFromRvRef", x, <<v, i, al>>)
+ElemCopyMove     == \E x \in Elems, y \in Elems :
+                       \/ Do("ElemCopy", x, <<y>>) \/ Do("ElemMove", x, <<y>>)
+                       \/ \E al \in Allocs : Do("ElemCopyAlloc", x, <<y, al>>) \/ Do("ElemMoveAlloc", x, <<y, al>>)
+ElemAssign       == \E x \in Elems, y \in Elems :
+                       \/ Do("ElemCopyAssign", x, <<y>>) \/ Do("ElemMoveAssign", x, <<y>>) \/ Do("ElemSwap", x, <<y>>)
+ElemRefAssign    == \E x \in Elems, v \in Vecs, i \in IdxSpace :
+                       \/ Do("ElemAssignFromRef", x, <<v, i>>) \/ Do("ElemAssignFromRvRef", x, <<v, i>>)
+                       \/ Do("RefAssignFromElem", v, <<i, x>>) \/ Do("RefAssignFromRvElem", v, <<i, x>>)
+ElemDestroy      == \E x \in Elems : Do("ElemDestroy", x, <<>>)
+
 Init == /\ vec = [v \in Vecs |-> Absent]
         /\ el = [x \in Elems |-> Absent]
         /\ act = [n |-> "Init", v |-> 0, a |-> <<>>]
 
 Next == \/ Construct \/ DefaultConstruct \/ Destroy \/ EmplaceBack \/ PopBack \/ Erase \/ EraseRange
         \/ Clear \/ Reserve \/ CopyConstruct \/ CopyAssign \/ MoveConstruct \/ MoveAssign \/ Swap
+        \/ ElemFromRef \/ ElemCopyMove \/ ElemAssign \/ ElemRefAssign \/ ElemDestroy
 
 Spec == Init /\ [][Next]_vars
 
@@ -334,8 +437,17 @@ EraseIsSequenceErase ==
 \*      unless it names it as its second operand
 CopyIndependent ==
   [][\A v \in Vecs : (vec'[v] # vec[v]) =>
-        \/ act'.v = v
-        \/ (act'.n \in {"MoveConstruct", "MoveAssign", "Swap"} /\ act'.a[1] = v)]_vars
+        \/ (act'.v = v /\ act'.n \notin ElemOps)
+        \/ (act'.n \in {"MoveConstruct", "MoveAssign", "Swap"} /\ act'.a[1] = v)
+        \/ (act'.n \in {"ElemFromRvRef", "ElemAssignFromRvRef"} /\ act'.a[1] = v)]_vars
+
+\* C12: an element is an independent deep copy - operations on vectors never change an element, and
+\*      element operations change a vector only when they move out of it / assign into it
+ElementIndependent ==
+  [][\A x \in Elems : (el'[x] # el[x]) =>
+        \/ (act'.v = x /\ act'.n \in ElemOps)
+        \/ (act'.n \in {"ElemMove", "ElemMoveAlloc", "ElemMoveAssign", "ElemSwap"} /\ act'.a[1] = x)
+        \/ (act'.n = "RefAssignFromRvElem" /\ act'.a[2] = x)]_vars
 
 \* C09: self-assignment and self-swap change nothing
 SelfOpsStutter ==
